@@ -295,11 +295,14 @@ func (g *c11Gen) stepOp() {
 	} else if rng.Intn(100) < 6 {
 		g.restartScenario()
 		return
+	} else if rng.Intn(100) < 3 {
+		g.moduleOffByKeyScenario()
+		return
 	}
 	p := w.pairOf(w.ctx, c)
 	if g.force == nil && rng.Intn(3) == 0 { // disabled things come back soon, so that histories do not die
 		if !w.app.AggregateKeeper.GetParams(w.ctx).EnableAggregate {
-			g.doDump("params 1")
+			g.setModule(true)
 		}
 		if p.found && !p.enabled {
 			g.doDump("toggle " + hxs("0x"+c11Hex(c)))
@@ -394,7 +397,11 @@ func (g *c11Gen) stepOp() {
 			g.doDump("toggle " + hxs(tok))
 		}
 	case x < 95:
-		g.doDump(fmt.Sprintf("params %d", rng.Intn(2)))
+		if rng.Intn(3) == 0 {
+			g.doDump(fmt.Sprintf("gov %s %d", hxs("EnableEVMHook"), rng.Intn(2))) // the other key, independently
+		} else {
+			g.setModule(rng.Intn(2) == 1)
+		}
 	case x < 97:
 		if d := g.pick(w.denoms); sdk.ValidateDenom(d) == nil {
 			g.doDump(fmt.Sprintf("sendenabled %s %d", hxs(d), rng.Intn(2)))
@@ -403,7 +410,7 @@ func (g *c11Gen) stepOp() {
 		g.doDump("suicide " + c11Hex(c))
 	default:
 		// re-enable things so that histories do not die
-		g.do("params 1")
+		g.setModule(true)
 		if p.found && !p.enabled {
 			g.do("toggle " + hxs("0x"+c11Hex(c)))
 		}
@@ -573,14 +580,14 @@ func (g *c11Gen) restartScenario() {
 	}
 	moduleOff := rng.Intn(4) == 0
 	if moduleOff {
-		g.doDump("params 0")
+		g.setModule(false)
 	}
 	g.doDump("restart")
 	if rng.Intn(4) == 0 {
 		g.doDump("restart")
 	}
 	if moduleOff && rng.Intn(2) == 0 {
-		g.doDump("params 1")
+		g.setModule(true)
 	}
 	g.force = &c
 	for _, b := range []string{"uatom", "uosmo", "ujuno"} {
@@ -601,7 +608,7 @@ func (g *c11Gen) restartScenario() {
 	}
 	g.force, g.forceBase = nil, ""
 	if moduleOff {
-		g.doDump("params 1")
+		g.setModule(true)
 	}
 	if rng.Intn(10) < 7 && w.pairOf(w.ctx, c).found && !w.pairOf(w.ctx, c).enabled {
 		g.doDump("toggle " + hxs("0x"+c11Hex(c)))
@@ -612,4 +619,60 @@ func (g *c11Gen) restartScenario() {
 			g.force = nil
 		}
 	}
+}
+
+// the module-wide switch, the two ways it can be written: keeper.SetParams (what tests and genesis do) or a governance
+// parameter change addressed BY KEY (the only way on a live chain)
+func (g *c11Gen) setModule(on bool) {
+	b := 0
+	if on {
+		b = 1
+	}
+	if g.r.Rng.Intn(2) == 0 {
+		g.doDump(fmt.Sprintf("params %d", b))
+	} else {
+		g.doDump(fmt.Sprintf("gov %s %d", hxs("EnableAggregate"), b))
+	}
+}
+
+// governance switches the module off by key (with the EVM-hook key at either value), optionally a restart, then
+// conversions in both directions and ICS-20 packets for one registered pair; then on again
+func (g *c11Gen) moduleOffByKeyScenario() {
+	rng := g.r.Rng
+	w := g.w
+	var regs []common.Address
+	for _, c := range w.contracts {
+		if p := w.pairOf(w.ctx, c); p.found && p.enabled {
+			regs = append(regs, c)
+		}
+	}
+	if len(regs) == 0 {
+		return
+	}
+	c := regs[rng.Intn(len(regs))]
+	p := w.pairOf(w.ctx, c)
+	g.doDump(fmt.Sprintf("gov %s %d", hxs("EnableEVMHook"), rng.Intn(2)))
+	g.doDump(fmt.Sprintf("gov %s 0", hxs("EnableAggregate")))
+	if rng.Intn(3) == 0 {
+		g.doDump("restart")
+	}
+	g.force = &c
+	for _, b := range []string{"uatom", "uosmo", "ujuno"} {
+		for _, d := range p.denoms {
+			if d == c11Voucher(b) {
+				g.forceBase = b
+			}
+		}
+	}
+	for k := 2 + rng.Intn(3); k > 0; k-- {
+		g.stepOp()
+	}
+	if g.forceBase != "" {
+		g.icsOp()
+	}
+	g.force, g.forceBase = nil, ""
+	if rng.Intn(4) == 0 {
+		g.doDump(fmt.Sprintf("gov %s %d", hxs("EnableEVMHook"), rng.Intn(2)))
+	}
+	g.doDump(fmt.Sprintf("gov %s 1", hxs("EnableAggregate")))
 }
